@@ -146,11 +146,26 @@ def run_c06(tier, seed, rep, only_prop=False, scale=1):
             continue
         for j, (fl, placed, acc, labs) in enumerate(res):
             lines.append(fl); metas.append({"kind": "history", "ops": ops, "mode": mode, "compute_no": j, "acc": acc, "labels": labs})
+        # the same history on the STATEFUL transliteration (Model/EngineT.lean): node objects with their links, positions and layer
+        # numbers, several engines sharing them — the observation after every compute must be equal in exact arithmetic
+        if k % 2 == 0:
+            try:
+                lines.append(I.run_ehist(ops)); metas.append({"kind": "ehist", "ops": ops, "mode": "exact"})
+            except RecursionError:
+                rep.count("recursion-error(F3)")
+            except Exception as e:
+                rep.prop_fail.append(("Force.compute raised %s in a history: %s" % (type(e).__name__, e), {"case": {"kind": "ehist", "ops": ops, "mode": "exact"}}))
         lines.append("perm|%s|%s" % (r1[0][1], r2[0][1])); metas.append({"kind": "perm", "labels": labelsA, "perm": perm, "opts": o, "mode": mode})
     answers = drive(lines)
     for line, meta, ans in zip(lines, metas, answers):
         f = fields(ans)
         payload = {"case": meta, "driver_line": line, "driver_answer": ans}
+        if f["_cmd"] == "ehist":
+            rep.case(line, nontrivial=int(f["computes"]) > 1, sample={"case": {"kind": "ehist", "ops": meta["ops"]}, "driver": ans} if rep.dist.get("ehist", 0) < 2 else None)
+            rep.count("ehist"); rep.count("ehist same=" + f["same"])
+            if f["same"] != "ok" and not only_prop:
+                rep.corr_fail.append(("real Force/Node objects and the stateful transliteration (EngineT) differ after a compute of this history: " + ans, payload))
+            continue
         if f["_cmd"] == "perm":
             rep.case(line, nontrivial=True, sample=None)
             rep.count("perm hyp=" + f["hyp"])
@@ -188,6 +203,8 @@ def run(pid, tier, seed, replay=None):
             line = I.run_dist([tuple(x) for x in m["labels"]], m["opts"], m["mode"])
         elif m["kind"] == "force":
             line = I.run_force([tuple(x) for x in m["labels"]], m["opts"], m["mode"], want_layer_lines=False)[0]
+        elif m["kind"] == "ehist":
+            line = I.run_ehist([tuple(o) if not isinstance(o, tuple) else o for o in m["ops"]])
         elif m["kind"] == "history":
             line = I.run_history([tuple(o) if not isinstance(o, tuple) else o for o in m["ops"]], m["mode"])[m["compute_no"]][0]
         else:
